@@ -631,6 +631,7 @@ class Client(base_client.BaseClient):
                 if r is None or isinstance(r, str):
                     self.logger.warning(
                         r or 'Connection refused by the server, aborting')
+                    self.write_loop_task = None
                     break
                 if r.status_code < 200 or r.status_code >= 300:
                     self.logger.warning('Unexpected status code %s in server '
